@@ -187,6 +187,54 @@ def r3_maps_together(chk):
         r.require(cfg, 4, "RouterMap mutators (add_peer, update_peer_identity, remove_peer_by_read_pipe, remove_peer_by_identity)")
 
 
+def r6_forward_entry_removed_by_owner(chk):
+    r = chk.rule("R6", "a detaching connection removes the forward route only if it still owns it", "T3 control dependence on an ownership comparison",
+                 "in every RouterMap method that drops the reverse entry of a pipe and then removes identity_to_peer_info[identity of that pipe], the removal is control-dependent on a "
+                 "comparison between the owner recorded in the forward entry and the detaching pipe / endpoint: a second connection that announced the same identity since (collision, "
+                 "reconnect with a fixed routing id) keeps its route")
+    for cfg, prog in chk.configs():
+        n = 0
+        for body in prog.bodies.values():
+            if body.impl_self != "socket::patterns::router::RouterMap" or not body.kind.startswith("coroutine") or "::tests" in body.path:
+                continue
+            names, _ = body.names
+            rev_removes = [c for c in body.calls if c.name == "remove" and "HashMap" in c.callee and "self.read_pipe_to_identity" in body.provenance(c.args[0])]
+            fwd_removes = [c for c in body.calls if c.name == "remove" and "HashMap" in c.callee and "self.identity_to_peer_info" in body.provenance(c.args[0])]
+            for R in fwd_removes:
+                sl = body.data_slice(R.args[1])
+                # the key was read out of the reverse map (not handed in by the caller)
+                via_reverse = any(x[0] == "call" and x[1].endswith("HashMap::remove") for x in sl) and any(
+                    body.dominates(rr.blk, R.blk) for rr in rev_removes)
+                if not via_reverse:
+                    continue
+                n += 1
+                key = "%s|forward entry removed only by its owner" % short(body.root)
+                found = None
+                for s_ in range(body.n):
+                    t = body.term(s_)
+                    if t["k"] != "switch" or body.blocks[s_]["cleanup"] or is_plumbing(t):
+                        continue
+                    a, _pol = body.switch_atom(s_)
+                    if a[0] != "cmp" or a[1] not in ("Eq", "Ne"):
+                        continue
+                    sx, sy = body.data_slice(a[2]), body.data_slice(a[3])
+                    both = sx | sy
+                    owner_side = any(x[0] == "call" and x[1].endswith("HashMap::get") for x in both) or any(x[0] == "place" and "identity_to_peer_info" in x[1] for x in both)
+                    mine_side = any(x[0] == "place" and re.match(r"^(pipe_read_id|endpoint_uri|\w*pipe\w*|\w*uri\w*)$", x[1]) for x in both) or any(x[0] == "param" for x in both)
+                    if not (owner_side and mine_side):
+                        continue
+                    # control dependence: one edge of the comparison can reach the removal, another cannot
+                    reach = [R.blk in body.reachable_constprop([tb]) for tb, lab in body.edges(s_)]
+                    if any(reach) and not all(reach):
+                        found = s_
+                        break
+                if found is not None:
+                    r.ok(cfg, key, where(body, R.blk), "removal depends on the ownership comparison at %s" % body.term(found)["sp"].split("/")[-1])
+                else:
+                    r.bad(cfg, key, where(body, R.blk), "`%s` looks up the identity stored for the detaching pipe and removes identity_to_peer_info[identity] without checking that the entry still belongs to this pipe: if another connection announced the same identity in the meantime (collision, reconnect with a fixed ROUTING_ID) the live connection's route is deleted and the peer becomes unroutable while connected" % body.name)
+        r.require(cfg, 1, "detach paths that remove a forward entry found through the reverse map")
+
+
 def r4_mandatory(chk):
     r = chk.rule("R4", "unroutable exits honour ROUTER_MANDATORY", "T3 guarded-by",
                  "every HostUnreachable error constructed in RouterSocket::send/send_multipart is under `router_mandatory == true`, and the sibling edge returns Ok(())")
@@ -255,4 +303,5 @@ def run(chk):
     r2_identity_from_source_pipe(chk)
     r3_maps_together(chk)
     r4_mandatory(chk)
+    r6_forward_entry_removed_by_owner(chk)
     r5_delimiter_symmetry(chk)
